@@ -89,6 +89,13 @@ def run(ctx):
     ctx.proofs()
     names = configs.CFG_QUICK if ctx.tier == "quick" else configs.CFG_ALL
     db = ctx.driver()
+    # the model flags of every configuration must be what the CURRENT Cargo.toml feature graph + target features select
+    for name in configs.CONFIGS:
+        d, r = configs.derived_flags(name), sorted(configs.flags(name))
+        if d != r:
+            ctx.obligation_failures.append("configuration `%s`: model flags %s are not what the feature closure of the current Cargo.toml "
+                                           "selects (%s)" % (name, r, d))
+    ctx.notes.append("feature-closure check: %d configurations, model flags = flags derived from /repo's Cargo.toml" % len(configs.CONFIGS))
     cases = corpus(ctx.rng.fork("cfg"), ctx.tier)
     ref = None
     st = {"configurations": {}, "cases_per_configuration": len(cases)}
